@@ -1,6 +1,11 @@
 use std::cell::Cell;
 use std::ptr;
+#[cfg(not(multiqueue2_verif))]
 use std::sync::atomic::{fence, AtomicPtr, AtomicUsize, Ordering};
+#[cfg(multiqueue2_verif)]
+use crate::verif_hooks::{fence, AtomicPtr, AtomicUsize};
+#[cfg(multiqueue2_verif)]
+use std::sync::atomic::Ordering;
 
 use crate::alloc;
 use crate::consume::CONSUME;
